@@ -8,6 +8,8 @@ import LyModel.Props.C03
 import LyModel.Props.C15
 import LyModel.Props.C01Lyb
 import LyModel.Props.C16
+import LyModel.Props.C17
+import LyModel.Props.C17L1
 import LyModel.Props.C11
 import LyModel.Props.C11Range
 import LyModel.Props.C08
